@@ -32,6 +32,24 @@ def state_spec(st, tier, world_knobs=None, profile_knobs=None, feed_knobs=None, 
     return dict(world=world, profile=profile, ops=ops, feed_stats=fstats)
 
 
+def add_unrequested_gaps(st, spec, p=0.03):
+    """Feed fault: a party count that NO requested estimand needs (and that the weights do not need: vote-count estimands
+    only) has not arrived yet for a unit whose other counts have.  The unit is as reporting as its expected-vote share says."""
+    est = spec["profile"]["estimands"]
+    free = [c for c in ("dem", "gop") if c not in est]
+    if "margin" in est or not free:
+        return 0
+    n = 0
+    for o in spec["ops"]:
+        if o["k"] == "deliver" and st.feed.random() < p:
+            c = free[int(st.feed.integers(0, len(free)))]
+            o["row"] = dict(o["row"], **{f"results_{c}": None})
+            o["unrequested_gap"] = True
+            n += 1
+    spec["feed_stats"]["unrequested_gaps"] = n
+    return n
+
+
 def table_for(agg):
     return R.TABLE_NAME[agg]
 
